@@ -499,7 +499,22 @@ impl Run<'_> {
             }
             settle(&dev);
             // transmitted packets of this op
-            let tx: Vec<Pkt> = dev.with(|d| d.h.tx[tx0..].to_vec());
+            let tx_all: Vec<Pkt> = dev.with(|d| d.h.tx[tx0..].to_vec());
+            // An unsolicited credit update to an existing connection is the implementation's
+            // choice at any time (C17 judges its contents; fwd_cnt is checked below as for every
+            // packet): such packets are set aside before the comparison unless they are the
+            // packet expected at that position.
+            let mut tx: Vec<Pkt> = Vec::new();
+            for p in &tx_all {
+                let expected_here = want_tx.get(tx.len()).map_or(false, |w| p.op == w.0 && (p.dst_cid, p.dst_port) == w.1 && p.src_port == w.2);
+                let unsolicited_cu = p.op == 6 && p.len == 0 && p.src_cid == GUEST_CID && p.ty == 1 && p.buf_alloc == capacity && find(&conns, (p.dst_cid, p.dst_port), p.src_port).is_some();
+                if expected_here || !unsolicited_cu {
+                    tx.push(p.clone());
+                }
+            }
+            if tx.len() != tx_all.len() {
+                st.class("unsolicited_credit_update_seen");
+            }
             if !skip_tx_check {
                 if tx.len() != want_tx.len() {
                     return Err(format!("{}: driver transmitted {:?}, expected ops {:?}", what, tx.iter().map(|p| (p.op, p.dst_cid, p.dst_port, p.src_port)).collect::<Vec<_>>(), want_tx.iter().map(|x| (x.0, x.1, x.2)).collect::<Vec<_>>()));
@@ -512,7 +527,7 @@ impl Run<'_> {
                 }
             }
             // fwd_cnt in every transmitted header = bytes the application has read on that connection
-            for p in &tx {
+            for p in &tx_all {
                 if let Some(k) = find(&conns, (p.dst_cid, p.dst_port), p.src_port) {
                     if p.fwd_cnt != conns[k].read_total {
                         return Err(format!("{}: header fwd_cnt {} but the application has read {} bytes on that connection", what, p.fwd_cnt, conns[k].read_total));
